@@ -96,6 +96,16 @@ package nflog
 //@   ensures result1 != nil ==> result0 == nil
 //@   assigns nothing
 
+// C11/C10: loading a snapshot installs exactly the decoded state (every entry filed under its own key), or nothing
+// at all when the snapshot does not decode
+//@ func (*Log).loadSnapshot
+//@   props C11 C10
+//@   requires l != nil
+//@   ensures [error-installs-nothing] result != nil ==> l.st == old(l.st)
+//@   ensures [installs-the-decoded-state] result == nil ==> l.st == ret("decodeState") && l.st != nil && wfState(l.st) && (forall k string :: k in l.st ==> keyOf(l.st[k]) == k)
+//@   ensures [monitor-lock-released] count("Mutex).Lock") == count("Mutex).Unlock") && count("Mutex).Lock") <= 1
+//@   assigns l.st
+
 // C10: merging a received batch. The log never goes backwards, only unexpired entries taken from the batch are
 // stored, keys not mentioned keep their entry, and a batch that does not decode changes nothing.
 //@ func (*Log).Merge
